@@ -6,6 +6,7 @@ CONSTANTS
   Cap = 1
   DropParentCloseW = FALSE
   FailAt = 2
+  CapReadMode = "concurrent"
   Capture = FALSE
 INVARIANT ExecFds
 INVARIANT ShellFdsRestored
